@@ -261,6 +261,22 @@ def shape_final_newline_after_trim(prog: dict[str, Any], default_trim: str) -> b
     return False
 
 
+CYCLE_ITEMS: list[list[str]] = [
+    ["-1", "5"], ["-2", "5"], ["1", "2"], ["1.0", "2.0"], ["true", "2"], ["'1'", "'2'"], ["1", "2", "3"], ["2", "1"],
+    ["'a'", "'b'"], ["'a'", "'B'"], ["false", "0"], ["0", "0"], ["nil", "1"], ["''", "1"], ["-1", "-2"], ["-2", "-1"],
+    ["1.5", "2"], ["'a'"], ["'a'", "'b'", "'a'"],
+]
+
+
+def _lit_value(text: str) -> Any:
+    return {"true": True, "false": False, "nil": None}.get(text, None) if text in ("true", "false", "nil") else \
+        text[1:-1] if text.startswith("'") else float(text) if "." in text else int(text)
+
+
+def _lit_text(text: str) -> str:
+    return "" if text == "nil" else text[1:-1] if text.startswith("'") else text
+
+
 # name -> (opening line(s) separated by '|', closing line, iterations of the body, expression echoed afterwards)
 NEST_TAGS: dict[str, tuple[str, str, int, str]] = {
     "if": ("if true", "endif", 1, ""),
@@ -473,6 +489,11 @@ class C01(Prop):
             yield {"kind": "calibration", "name": name, "prog": prog, "data": data, "want": want, "cfg": DEFAULT_CFG,
                    "layout": 1000 + i}
 
+        # O5 - cycle iterators are told apart by their items (and name): literal lists that differ in an item
+        # never share an iterator, identical lists do
+        for i, a in enumerate(CYCLE_ITEMS):
+            for j, b in enumerate(CYCLE_ITEMS):
+                yield {"kind": "cycle-pair", "a": a, "b": b, "named": (i + j) % 3 == 0, "cfg": DEFAULT_CFG}
         # O4 - every block tag nests in every block tag (markup and `liquid` line form): a well-formed
         # template is never rejected, and the innermost text comes out once per iteration
         for outer in NEST_TAGS:
@@ -488,6 +509,34 @@ class C01(Prop):
             for b in ORDER_POOL:
                 for c in ORDER_POOL:
                     yield {"kind": "order-trans", "a": a, "b": b, "c": c, "cfg": DEFAULT_CFG}
+
+    def _check_cycle_pair(self, case: Any) -> Result:
+        res = Result()
+        a, b = case["a"], case["b"]
+        name = "g: " if case.get("named") else ""
+        src = "{% cycle " + name + ", ".join(a) + " %}|{% cycle " + name + ", ".join(b) + " %}|{% cycle " + name + ", ".join(a) + " %}"
+        same = a == b
+        liquid_equal = len(a) == len(b) and all(_lit_value(x) == _lit_value(y) and
+                                                isinstance(_lit_value(x), bool) == isinstance(_lit_value(y), bool)
+                                                for x, y in zip(a, b))
+        res.labels.append("cycle-pair:" + ("same" if same else "equal-valued" if liquid_equal else "different"))
+        if liquid_equal and not same:
+            return res  # 1 vs 1.0: whether equal-valued literals are "the same items" is not documented
+        shown = [_lit_text(x) for x in a], [_lit_text(x) for x in b]
+        want = "|".join([shown[0][0], shown[1][1 % len(b)] if same else shown[1][0],
+                         shown[0][(2 if same else 1) % len(a)]])
+        env = make_env({}, **config(case["cfg"]))
+        res.evaluations = 1
+        try:
+            out = env.from_string(src).render()
+        except Exception as err:  # noqa: BLE001
+            res.labels.append("crash:" + exc_bucket(err))
+            return res
+        res.nontrivial = True
+        if out != want:
+            res.fail("cycle-identity", "cycle:" + ("same-items-not-shared" if same else "different-items-shared"),
+                     f"src={src!r}: rendered {out!r}, the documented iterator identity gives {want!r}")
+        return res
 
     def _check_nesting(self, case: Any) -> Result:
         res = Result()
@@ -609,7 +658,7 @@ class C01(Prop):
                 "model_calibration_table": f"{len(TABLE)} documented examples"}
 
     def sample(self, case: Any) -> Any:
-        if case["kind"] in ("order-laws", "order-trans", "nesting"):
+        if case["kind"] in ("order-laws", "order-trans", "nesting", "cycle-pair"):
             return case
         try:
             src = to_source(case["prog"]["main"], 0)
@@ -624,6 +673,8 @@ class C01(Prop):
             return self._check_trans(case)
         if case["kind"] == "nesting":
             return self._check_nesting(case)
+        if case["kind"] == "cycle-pair":
+            return self._check_cycle_pair(case)
         res = Result()
         prog, data = json.loads(json.dumps(case["prog"])), case["data"]
         opts = config(case["cfg"])
